@@ -87,7 +87,7 @@ Lemma conv_unfold f env t c :
           end
         else None
     | KSlice =>
-        if kind_other_is (t_kind (tget env (t_elem d))) "uint8" then
+        if kind_other_is (t_kind (tget env (t_elem d))) "uint8" && str_eqb (t_name d) [] then
           match c with
           | CNull => Some (VSlice true [])
           | CInt id => Some (VSlice false (map (fun b => VLeaf b (N.eqb b 0)) (itoa id)))
